@@ -183,6 +183,25 @@ def t_state_classes(h):
                 tg = st.targets[0] if isinstance(st, ast.Assign) else st.target
                 bad.append(f'{n}.{ast.unparse(tg)}')
     h.prove(bad == [], 'store-reset.state-classes-keep-no-mutable-object-at-class-level', {'class_level_objects': bad})
+    # the other classes whose instances live for one session: a list / dict / set in the class body is one object shared by every
+    # instance, i.e. by every session of the process (peewee field declarations are records, their shared defaults are modelled: A-16)
+    bad2 = []
+    for q in ('jesse.strategies.Strategy.Strategy', 'jesse.models.Position.Position', 'jesse.models.Route.Route', 'jesse.services.broker.Broker',
+              'jesse.models.Exchange.Exchange', 'jesse.models.FuturesExchange.FuturesExchange', 'jesse.models.SpotExchange.SpotExchange',
+              'jesse.exchanges.sandbox.Sandbox.Sandbox', 'jesse.routes.RouterClass'):
+        try:
+            c = h.repo.find(q)
+        except KeyError:
+            continue
+        for st in c.node.body:
+            if isinstance(st, (ast.Assign, ast.AnnAssign)) and st.value is not None:
+                v = st.value
+                mutable = isinstance(v, (ast.Dict, ast.List, ast.Set, ast.ListComp, ast.DictComp, ast.SetComp)) or \
+                    (isinstance(v, ast.Call) and ast.unparse(v.func) in ('dict', 'list', 'set', 'defaultdict', 'collections.defaultdict', 'deque'))
+                if mutable:
+                    tg = st.targets[0] if isinstance(st, ast.Assign) else st.target
+                    bad2.append(f'{q.split(".")[-1]}.{ast.unparse(tg)}')
+    h.prove(bad2 == [], 'store-reset.session-classes-keep-no-mutable-container-at-class-level', {'class_level_containers': bad2})
 
 
 SESSION_PATH = ['jesse/modes/backtest_mode.py', 'jesse/research/backtest.py', 'jesse/research/__init__.py', 'jesse/helpers.py', 'jesse/config.py',
@@ -331,6 +350,11 @@ def t_prologue(with_warmup):
         h.assume(ops.equal(ops.arith('-', a.fn(1).e[0], a.fn(0).e[0]), 60000))
         wa = h.ctx.fresh_arr('warmup', np=True, cols=6)
         candles = {'Sandbox-BTC-USDT': {'exchange': 'Sandbox', 'symbol': 'BTC-USDT', 'candles': a}}
+        # a second candle set of its own (possibly greater) length: each set reaches the simulator as it was passed
+        b2 = h.ctx.fresh_arr('candles2', np=True, cols=6)
+        h.assume(ops.compare('>=', b2.n, a.n))
+        h.assume(ops.equal(ops.arith('-', b2.fn(1).e[0], b2.fn(0).e[0]), 60000))
+        candles['Sandbox-ETH-USDT'] = {'exchange': 'Sandbox', 'symbol': 'ETH-USDT', 'candles': b2}
         warm = {'Sandbox-BTC-USDT': {'exchange': 'Sandbox', 'symbol': 'BTC-USDT', 'candles': wa}} if with_warmup else None
         cfg = {'starting_balance': h.real('balance', 0), 'fee': h.real('fee', 0), 'type': 'futures', 'futures_leverage': h.int('lev', 1),
                'futures_leverage_mode': 'cross', 'exchange': 'Sandbox', 'warm_up_candles': h.int('warm', 0)}
@@ -369,6 +393,8 @@ def t_prologue(with_warmup):
             and got['Sandbox-BTC-USDT']['candles'] is not a
         h.prove(fresh, 'prologue.simulator-receives-a-deep-copy-of-the-candles')
         h.prove(h.interp.lib._np_array_equal(h.interp, [got['Sandbox-BTC-USDT']['candles'], a], {}), 'prologue.the-copy-equals-the-input')
+        h.prove('Sandbox-ETH-USDT' in got and h.interp.lib._np_array_equal(h.interp, [got['Sandbox-ETH-USDT']['candles'], b2], {}),
+                'prologue.every-candle-set-is-handed-on-as-it-was-passed')
         h.prove(ops.equal(calls[isim][2].get('fast_mode'), fast), 'prologue.simulator-mode-is-the-fast-mode-argument')
         same = (cfg == snap[0] and [dict(r) for r in routes] == snap[1] and [dict(r) for r in data_routes] == snap[2]
                 and a.fn is snap[4] and candles['Sandbox-BTC-USDT'] == snap[5])
